@@ -15,6 +15,9 @@ import (
 //   - a field declared "guarded T.f by mu" is read holding mu (R or W) and written - or handed to a mutating
 //     method - holding mu for writing; objects still under construction (allocated in this activation) are exempt;
 //   - every lock taken by the function under proof is released on every return path;
+//   - no escape: the address of a guarded field is never turned into an interface value or handed to a function as an
+//     ordinary argument (it may only be the receiver of a method call made under the lock): whoever gets that address
+//     can use the field without the mutex - objects under construction included;
 //   - atomic update: a guarded field is not written in one critical section on the strength of a value read in an
 //     EARLIER critical section (lock released in between) without being read again in the writing section - the
 //     check-then-act / snapshot-then-publish pattern that loses concurrent updates.
@@ -314,4 +317,43 @@ func (ex *Exec) releasedAtReturn(st *State, pos token.Pos) {
 		}
 	}
 	ex.lockObl(st, "released", "every mutex acquired by the function is released on this return path", same, pos)
+}
+
+// guardedEscape: v (about to become an interface value, or an ordinary argument) points into a guarded field.
+func (ex *Exec) guardedEscape(fr *Frame, st *State, v Val, how string, pos token.Pos) {
+	if !ex.lockChecks() {
+		return
+	}
+	p, ok := v.(*Ptr)
+	if !ok || len(p.Path) == 0 {
+		return
+	}
+	var t types.Type
+	switch {
+	case p.Root != nil:
+		t = p.Root
+	case p.Cell != nil:
+		t = p.Cell.T
+	default:
+		return
+	}
+	for _, idx := range p.Path {
+		if gi := ex.guardFor(t); gi != nil && gi.mutexIdx >= 0 {
+			if fname, g := gi.fields[idx]; g {
+				ex.lockObl(st, "noescape@"+fname, fmt.Sprintf("the address of guarded field %s does not escape (%s): its holder could use the field without the mutex", fname, how), false, pos)
+				return
+			}
+		}
+		switch u := t.Underlying().(type) {
+		case *types.Struct:
+			if idx < 0 || idx >= u.NumFields() {
+				return
+			}
+			t = u.Field(idx).Type()
+		case *types.Array:
+			t = u.Elem()
+		default:
+			return
+		}
+	}
 }
